@@ -5,3 +5,4 @@ pub mod props;
 pub mod refcodec;
 pub mod sim;
 pub mod simgen;
+pub mod wire;
